@@ -13,6 +13,17 @@ DEV_NOTE = ("Trusted: TLC, the transcription of the device rules into Devices.tl
             "built per behaviour and every terminal is read after every action); timestamps are ranks mapped monotonically to i64; "
             "numeric agreement within 2^-16 of the largest magnitude in the behaviour.")
 CLAIMS = {
+ "C16": dict(design_ref="DESIGN.md section 4, C16",
+    text="First sentence: Combinators.tla models the n-ary fold slot by slot (scratch array, fill counter, read loop) and TLC checks for arities "
+         "1..8 and every error/absent/present pattern that only initialised slots below the counter are read and that the loop refines the "
+         "documented fold; the same cases, the four own/partner combinations of the terminal read and axle sizes 0..8 run on the real code with "
+         "the scratch arrays poisoned by the verification hook, so a read of an unwritten slot changes value and timestamp. Second sentence: "
+         "Lifetimes.tla enumerates programs {take a reference through an accessor; use / move / drop / end of scope}, labels those that use a "
+         "reference after its owner is gone, and each is compiled against the crate (accessors found by scanning the sources; a plain reference "
+         "as discriminating control); probes for the unsafe constructors and static-making macros. The eleven terminal accessors are known findings.",
+    note="Trusted: TLC, the specifications, the hook (0x7F poison), rustc as the oracle for acceptance. The lifetime part covers the program "
+         "shapes the model generates, not all Rust programs.",
+    technique="TLA+ spec model-checked with TLC; spec cases replayed into the implementation; spec-generated programs compiled against the crate"),
  "C19": dict(design_ref="DESIGN.md section 4, C19",
     text="The configuration is a constant of the specifications (DimCheck in Units, Kinematics, TimeInt, Streams) plus the power function. TLC "
          "generates the behaviours of ten specification modules once per value of DimCheck; harness binaries built as {std, alloc+libm, "
